@@ -4,9 +4,17 @@
      AesNiKeyProofs (G4: MKRKEY chains = KeyExpansion; hence AES-NI block encryption = FIPS-197)
      AesCtrProofs   (M1, M2, C03-M2 for an arbitrary block function). *)
 From Coq Require Import NArith List Arith Bool Lia.
-From LCP Require Import Base.CheckedMem Gen.Repo_aes Crypto.AesSpec Crypto.AesProofs Accel.AesNi
-  Crypto.AesCtrModel Crypto.AesRepo Accel.AesNiProofs Accel.AesNiKeyProofs Crypto.AesCtrProofs
-  Crypto.AesCtrExamples.
+From LCP Require Import Base.CheckedMem.
+From LCP Require Import Gen.Repo_aes.
+From LCP Require Import Crypto.AesSpec.
+From LCP Require Import Crypto.AesProofs.
+From LCP Require Import Accel.AesNi.
+From LCP Require Import Crypto.AesCtrModel.
+From LCP Require Import Crypto.AesRepo.
+From LCP Require Import Accel.AesNiProofs.
+From LCP Require Import Accel.AesNiKeyProofs.
+From LCP Require Import Crypto.AesCtrProofs.
+From LCP Require Import Crypto.AesCtrExamples.
 Import ListNotations.
 Local Open Scope N_scope.
 
